@@ -36,6 +36,8 @@ type Hooks struct {
 	Instr func(in *Interp, fr *Frame, i ssa.Instruction)
 	// MapUpdate handles m[k] = v on abstract maps.
 	MapUpdate func(in *Interp, m, k, v Val, site ssa.Instruction) bool
+	// Lookup handles map lookups on abstract maps.
+	Lookup func(in *Interp, m, k Val, commaOk bool, site ssa.Instruction) (Val, bool)
 	// Builtin intercepts builtin calls (copy, append, len, max, ...) before the default modelling.
 	Builtin func(in *Interp, name string, args []Val, site ssa.Instruction) (Val, bool)
 	// CallValue handles a call through a function value that is not a closure.
@@ -135,13 +137,16 @@ type Interp struct {
 	MaxDep  int
 	Cur     *Frame
 	Client  any // engine state of this path
+	// Module is the import path prefix of the analysed module; functions outside
+	// it are not interpreted on abstract arguments.
+	Module string
 	// Edge is called on every control transfer inside the interpreted functions.
 	Edge func(in *Interp, fr *Frame, from, to *ssa.BasicBlock) bool
 	ncell   int
 }
 
 func NewInterp(prog *ssa.Program, o *Oracle) *Interp {
-	return &Interp{Prog: prog, Oracle: o, Globals: map[*ssa.Global]*Cell{}, Conds: map[string]bool{}, MaxStep: 200000, MaxDep: 60}
+	return &Interp{Module: DefaultModule, Prog: prog, Oracle: o, Globals: map[*ssa.Global]*Cell{}, Conds: map[string]bool{}, MaxStep: 200000, MaxDep: 60}
 }
 
 func (in *Interp) abort(kind, msg string, site ssa.Instruction) {
@@ -270,6 +275,14 @@ func (in *Interp) CallFn(fn *ssa.Function, args []Val, bind []Val, site ssa.Inst
 			return r
 		}
 		return Top{"call of body-less function " + fn.String()}
+	}
+	// library code is interpreted on concrete arguments only; on abstract ones
+	// its result is an opaque symbolic value named after the call
+	if in.Module != "" && !inModule(fn, in.Module) && !allConcrete(args) {
+		if r, ok := in.extern(fn, args, site); ok {
+			return r
+		}
+		return opaqueResult(fn, args)
 	}
 	if in.Depth >= in.MaxDep {
 		in.abort("budget", "recursion depth exceeded in "+fn.String(), site)
@@ -816,6 +829,11 @@ func (in *Interp) slice(x, lo, hi, mx Val, site ssa.Instruction) Val {
 }
 
 func (in *Interp) lookup(m, k Val, x *ssa.Lookup) Val {
+	if _, isMap := m.(*Map); !isMap && in.Hooks.Lookup != nil {
+		if r, ok := in.Hooks.Lookup(in, m, k, x.CommaOk, x); ok {
+			return r
+		}
+	}
 	var res Val
 	found := Val(mkBool(false))
 	switch mm := m.(type) {
@@ -1181,4 +1199,98 @@ func (in *Interp) CallClosure(c *Closure, args []Val) (res Val, end *PathEnd) {
 		}
 	}()
 	return in.CallFn(c.Fn, args, c.Bind, nil), nil
+}
+
+// DefaultModule is the module prefix new interpreters use.
+var DefaultModule = ""
+
+func inModule(fn *ssa.Function, mod string) bool {
+	if fn.Pkg != nil {
+		return strings.HasPrefix(fn.Pkg.Pkg.Path(), mod)
+	}
+	if o := fn.Origin(); o != nil && o.Pkg != nil {
+		return strings.HasPrefix(o.Pkg.Pkg.Path(), mod)
+	}
+	if fn.Object() != nil && fn.Object().Pkg() != nil {
+		return strings.HasPrefix(fn.Object().Pkg().Path(), mod)
+	}
+	if fn.Parent() != nil {
+		return inModule(fn.Parent(), mod)
+	}
+	return true
+}
+
+func allConcrete(args []Val) bool {
+	for _, a := range args {
+		if !concrete(a, 0) {
+			return false
+		}
+	}
+	return true
+}
+
+func concrete(v Val, depth int) bool {
+	if depth > 6 {
+		return true
+	}
+	switch x := v.(type) {
+	case nil, Const, *Closure, *Builtin:
+		return true
+	case *Sym, Top, *Global:
+		return false
+	case *Struct:
+		for _, f := range x.F {
+			if !concrete(f, depth+1) {
+				return false
+			}
+		}
+		return true
+	case *Array:
+		for _, f := range x.E {
+			if !concrete(f, depth+1) {
+				return false
+			}
+		}
+		return true
+	case *Slice:
+		for _, f := range x.Elems() {
+			if !concrete(f, depth+1) {
+				return false
+			}
+		}
+		return true
+	case *Iface:
+		return concrete(x.V, depth+1)
+	case *Ptr:
+		return concrete(x.Cell.V, depth+1)
+	case *Tuple:
+		for _, f := range x.E {
+			if !concrete(f, depth+1) {
+				return false
+			}
+		}
+		return true
+	case *Map:
+		return true
+	}
+	return false
+}
+
+func opaqueResult(fn *ssa.Function, args []Val) Val {
+	name := fn.String()
+	if i := strings.Index(name, "["); i > 0 && !strings.HasPrefix(name, "(") {
+		name = name[:i]
+	}
+	res := fn.Signature.Results()
+	switch res.Len() {
+	case 0:
+		return nil
+	case 1:
+		return &Sym{Op: name, Args: args, T: res.At(0).Type()}
+	}
+	t := &Tuple{}
+	for i := 0; i < res.Len(); i++ {
+		t.E = append(t.E, &Sym{Op: fmt.Sprintf("%s.%d", name, i), Args: args, T: res.At(i).Type()})
+	}
+	return t
 }
